@@ -44,3 +44,29 @@ def ipUseS (alphaMode fg fa fd : Bool) (nt nx nta : Nat) : List Nat :=
   u3
 
 end DtsVerif.Scatter
+
+namespace DtsVerif.Scatter
+open DtsVerif.Py
+
+/-- numpy fancy assignment `l[idx] = vals` (equal lengths; entries are written in order, so a repeated index keeps the last value) -/
+def assignAt {α} (l : List α) : List Nat → List α → List α
+  | i :: is, v :: vs => assignAt (l.set i v) is vs
+  | _, _ => l
+
+/-- `po_sol` (and `po_var`) of `calibrate_double_ended_solver` without matching sections:
+`np.concatenate((p[: 1 + 2 * nt], E_all, p[2 * nt + nx_sec :]))`, then `po[1 + 2 * nt + ix_sec[1:]] = p[1 + 2 * nt : 2 * nt + nx_sec]`,
+then `po[1 + 2 * nt + ix_sec[0]] = 0`.  `p` = solver output, `E` = `calc_alpha_double(mode="exact")` at every location. -/
+def poSol {α} (p E : List α) (zero : α) (nt nxs : Nat) (ixSec : List Nat) : List α :=
+  let base := pySlice p none (some ((1 + 2 * nt : Nat) : Int)) ++ E ++ pySlice p (some ((2 * nt + nxs : Nat) : Int)) none
+  let a := assignAt base (ixSec.tail.map (fun i => 1 + 2 * nt + i))
+    (pySlice p (some ((1 + 2 * nt : Nat) : Int)) (some ((2 * nt + nxs : Nat) : Int)))
+  a.set (1 + 2 * nt + ixSec.headD 0) zero
+
+/-- the same with matching sections: `m = ix_from_cal_match_to_glob.size` unknowns of `A`, at the locations `ixE` -/
+def poSolMatch {α} (p E : List α) (zero : α) (nt m : Nat) (ixE : List Nat) (first : Nat) : List α :=
+  let base := pySlice p none (some ((1 + 2 * nt : Nat) : Int)) ++ E ++ pySlice p (some ((1 + 2 * nt + m : Nat) : Int)) none
+  let a := assignAt base (ixE.map (fun i => 1 + 2 * nt + i))
+    (pySlice p (some ((1 + 2 * nt : Nat) : Int)) (some ((1 + 2 * nt + m : Nat) : Int)))
+  a.set (1 + 2 * nt + first) zero
+
+end DtsVerif.Scatter
